@@ -87,6 +87,18 @@ def first_dim(s):
     return s.dims[0]
 
 
+def samegrid(a, b):
+    """identical coordinates along every dimension of the variance density"""
+    import numpy as np
+    if list(a.dims) != list(b.dims):
+        return False
+    for d in a.dims:
+        x, y = np.asarray(a.dataset[d].values), np.asarray(b.dataset[d].values)
+        if x.shape != y.shape or not np.array_equal(x, y):
+            return False
+    return True
+
+
 def replay_behaviour(chk, hist, hid, work):
     import numpy as np
     from ocean_science_utilities.wavespectra.operations import concatenate_spectra
@@ -250,10 +262,11 @@ def random_sequence(chk, rng, sid, work, fp, recs):
         op = rng.choice(ops)
         before = {k: digest(o) for k, o in objs.items()}
         res, frame, deep, rt = None, [], 0, 1
+        why = []
         try:
             with np.errstate(all="ignore"):
                 if op in ("add", "sub"):
-                    cands = [k for k in ids if objs[k].shape() == X.shape() and type(objs[k]) is type(X)]
+                    cands = [k for k in ids if objs[k].shape() == X.shape() and type(objs[k]) is type(X) and samegrid(objs[k], X)]
                     y = rng.choice(cands)
                     res = X + objs[y] if op == "add" else X - objs[y]
                 elif op == "neg":
@@ -308,9 +321,14 @@ def random_sequence(chk, rng, sid, work, fp, recs):
                     res = X.isel(**{d: i})
                     rt = 1 if np.array_equal(res.variance_density.values, X.variance_density.values[i], equal_nan=True) else 0
                 elif op == "getitem":
-                    i = rng.randrange(X.shape()[0])
+                    i = rng.choice([0, 0, X.shape()[0] - 1, rng.randrange(X.shape()[0])])
                     res = X[tuple([i] + [slice(None)] * (X.ndims - 1))]
-                    rt = 1 if np.array_equal(res.variance_density.values, X.variance_density.values[i], equal_nan=True) else 0
+                    okk = np.array_equal(res.variance_density.values, X.variance_density.values[i], equal_nan=True)
+                    for name in ("depth", "latitude", "longitude"):
+                        if name in X.dataset and X.dataset[name].dims and X.dataset[name].dims[0] == X.dims[0] and name in res.dataset:
+                            okk = okk and np.array_equal(np.asarray(res.dataset[name].values, dtype="float64"),
+                                                         np.asarray(X.dataset[name].values[i], dtype="float64"), equal_nan=True)
+                    rt = 1 if okk else 0
                 elif op == "sel":
                     d = X.dims[0]
                     i = rng.randrange(X.shape()[0])
@@ -319,8 +337,9 @@ def random_sequence(chk, rng, sid, work, fp, recs):
                 elif op in ("mean", "sum", "std"):
                     res = getattr(X, op)(dim=X.dims[0])
                 elif op == "concat":
+                    # (xarray aligns on coordinates: only spectra on identical spectral grids can be joined)
                     cands = [k for k in ids if not objs[k].dims_space_time and type(objs[k]) is type(X)
-                             and objs[k].shape() == X.shape()]
+                             and objs[k].shape() == X.shape() and samegrid(objs[k], X)]
                     N = rng.randint(1, 6)
                     parts = [rng.choice(cands) for _ in range(N)]
                     res = concatenate_spectra([objs[k] for k in parts], dim=rng.choice(["time", "latitude", "longitude"]))
@@ -331,9 +350,12 @@ def random_sequence(chk, rng, sid, work, fp, recs):
                             if name in objs[k].dataset and name in sub.dataset:
                                 a, b = np.asarray(objs[k].dataset[name].values), np.asarray(sub.dataset[name].values)
                                 if a.dtype.kind == "M":
-                                    ok = ok and np.array_equal(a.astype("datetime64[ns]"), b.astype("datetime64[ns]"))
+                                    same_ = np.array_equal(a.astype("datetime64[ns]"), b.astype("datetime64[ns]"))
                                 else:
-                                    ok = ok and np.array_equal(a.astype("float64"), b.astype("float64"), equal_nan=True)
+                                    same_ = np.array_equal(a.astype("float64"), b.astype("float64"), equal_nan=True)
+                                if not same_:
+                                    why.append("%s of element %d: %s vs %s" % (name, i, str(a)[:80], str(b)[:80]))
+                                ok = ok and same_
                     rt = 1 if ok else 0
                 elif op == "as_1d":
                     res = X.as_frequency_spectrum()
@@ -357,11 +379,74 @@ def random_sequence(chk, rng, sid, work, fp, recs):
             objs[nxt] = res
             nxt += 1
         rec = {"id": "%s.%d" % (sid, step), "op": op, "frame": frame, "changed": changed, "deep": deep, "shares": sh, "roundtrip": rt,
-               "kind": kind, "shape": list(shape), "operand": x}
+               "kind": kind, "shape": list(shape), "operand": x, "why": why[:3]}
         recs[rec["id"]] = rec
         fp.write(json.dumps(rec) + "\n")
         nrec += 1
     return nrec
+
+
+def alias_probes(chk):
+    """Every selection / view producing operation followed by every operation that changes its receiver by
+    contract (fillna, multiply(inplace=True)), applied to the *derived* object, with missing values present:
+    the object it was derived from must stay bit-for-bit unchanged."""
+    import numpy as np
+    from ocean_science_utilities.wavespectra.operations import concatenate_spectra
+    n = 0
+    for kind in ("1d", "2d"):
+        for shape in ((3,), (2, 2)):
+            def fresh():
+                o = make_base(1, shape, kind)
+                for name in (["variance_density", "a1", "b1"] if kind == "1d" else ["variance_density"]):
+                    v = o.dataset[name].values.copy()
+                    v[..., 0] = np.nan if name == "variance_density" and kind == "1d" else v[..., 0]
+                    if kind == "2d":
+                        v[..., 0, :] = np.nan
+                    else:
+                        v[..., 0] = np.nan
+                    o.dataset[name] = (o.dataset[name].dims, v)
+                return o
+            d0 = "time"
+            views = {
+                "getitem-slice": lambda x: x[tuple([slice(0, 2)] + [slice(None)] * (x.ndims - 1))],
+                "getitem-int": lambda x: x[tuple([1] + [slice(None)] * (x.ndims - 1))],
+                "getitem-zero": lambda x: x[tuple([0] + [slice(None)] * (x.ndims - 1))],
+                "isel-int": lambda x: x.isel(**{d0: 1}),
+                "isel-slice": lambda x: x.isel(**{d0: slice(0, 2)}),
+                "flatten": lambda x: x.flatten(),
+                "bandpass": lambda x: x.bandpass(0.05, 0.25),
+                "bandpass-full-band": lambda x: x.bandpass(),
+                "bandpass-wide-band": lambda x: x.bandpass(0.0, 10.0),
+                "sel": lambda x: x.sel({d0: x.dataset[d0].values[1]}),
+                "copy-shallow": lambda x: x.copy(deep=False),
+                "where": lambda x: x.where(x.is_valid() | True),
+            }
+            muts = {"fillna": lambda y: y.fillna(0.0), "multiply-inplace": lambda y: y.multiply(np.full(y.shape(), 2.0), inplace=True)}
+            for vname_, vf in views.items():
+                for mname, mf in muts.items():
+                    base = fresh()
+                    before = digest(base)
+                    try:
+                        der = vf(base)
+                        mf(der)
+                    except Exception:
+                        continue        # combination not supported by the library: not judged
+                    n += 1
+                    if digest(base) != before:
+                        chk.violation("alias:%s+%s" % (vname_, mname), "%s on the result of %s changed the spectrum it was derived from" % (mname, vname_),
+                                      {"kind": kind, "shape": list(shape), "view": vname_, "mutation": mname})
+            # concatenate single spectra, select each element, mutate it: the inputs must stay unchanged
+            singles = [make_base(k + 1, (), kind) for k in range(3)]
+            befores = [digest(x) for x in singles]
+            cat = concatenate_spectra(singles, dim="time")
+            for i in range(3):
+                el = cat[tuple([i] + [slice(None)] * (cat.ndims - 1))]
+                el.fillna(0.0)
+                el.multiply(np.full(el.shape(), 2.0), inplace=True)
+                n += 1
+            if [digest(x) for x in singles] != befores:
+                chk.violation("alias:concat", "mutating a selected element of a concatenation changed an input spectrum", {"kind": kind})
+    return n
 
 
 def run(tier):
@@ -416,6 +501,7 @@ def run(tier):
             for j in range(nseq):
                 nrec += random_sequence(chk, rng, "q%d" % j, work, fp, recs)
         evals += nrec
+        evals += alias_probes(chk)
         rt = common.run_tlc("SpectrumOpsTrace", "SpectrumOpsTrace.cfg", workers=1, timeout=3600, env={"TRACE_FILE": path})
         done = None
         for p in rt.prints:
